@@ -171,6 +171,8 @@ mut('c16-pull-not-forgotten', 'C16', 'src/pull.rs', "                    self.ba
 mut('c16-generic-keeps-entry', 'C16', 'src/backend.rs', "    fn peer_disconnected(&self, peer_id: &PeerIdentity) {\n        self.peers.remove_sync(peer_id);\n", "    fn peer_disconnected(&self, peer_id: &PeerIdentity) {\n", note='the table entry (write half) of a failed peer survives')
 mut('c16-xpub-wrong-peer', 'C16', 'src/xpub.rs', "        self.fair_queue_inner.lock().remove(peer_id);", "        let _ = &self.fair_queue_inner;", note='XPUB leaves the read half queued')
 mut('c16-sub-forgets-everyone', 'C16', 'src/sub.rs', "        self.peers.remove_sync(peer_id);\n        // Also drop", "        self.peers.clear_sync();\n        // Also drop", note='one failed peer makes SUB forget every peer (isolation)')
+mut('c16-req-not-forgotten', 'C16', 'src/req.rs', "                            drop(peer);\n                            self.backend.peer_disconnected(&peer_id);\n                            Err(error.into())", "                            Err(error.into())", note='F12 returns (error arm): REQ keeps a peer whose read failed')
+mut('c16-req-eof-not-forgotten', 'C16', 'src/req.rs', "                            drop(peer);\n                            self.backend.peer_disconnected(&peer_id);\n                            Err(ZmqError::NoMessage)", "                            Err(ZmqError::NoMessage)", note='F12 returns (end-of-stream arm)')
 mut('h-c16-rename', 'C16', 'src/dealer.rs', "Some((peer_id, Err(e)))", "Some((failed_peer, Err(e)))", expect='no-alarm', more=[("self.backend.peer_disconnected(&peer_id);", "self.backend.peer_disconnected(&failed_peer);")], note='HARMLESS rename')
 mut('h-req-closure', 'C07', 'src/req.rs', "        if self.current_request.is_some() {", "        if self.current_request.as_ref().map(|p| true).unwrap_or(false) {", expect='no-alarm', note='HARMLESS but through an un-annotated closure: Verus forgets the result, so the failed obligations must be reported as undecided (shape guard), never as a violation')
 mut('h-rr-extra-loop', 'C10', 'src/backend.rs', "        // In normal scenario this will always be only 1 iteration", "        let mut spins = 0u8;\n        while spins < 3 {\n            spins += 1;\n        }\n        // In normal scenario this will always be only 1 iteration", expect='no-alarm', note='HARMLESS extra loop the contracts carry no invariant for: undecided at worst')
